@@ -24,7 +24,8 @@ FLOORS = {
     'quick': {'orders': 2000, 'exhaustive_order_workbooks': 10, 'path:rect': 200, 'path:unbounded': 100,
               'path:list': 20, 'path:tuple': 20, 'path:generator': 20, 'path:sheetless': 60,
               'path:repeat': 60, 'path:first_access_range': 40, 'element_compares': 15000,
-              'cfg:xlsx-with-stale-stored-results': 8, 'real_book_cases': 20, 'real_value_compares': 800},
+              'cfg:xlsx-with-stale-stored-results': 8, 'real_book_cases': 20, 'real_value_compares': 800,
+              'pristine_process_workbooks': 16},
     'thorough': {'orders': 60000, 'exhaustive_order_workbooks': 400, 'path:unbounded': 4000,
                  'element_compares': 400000},
 }
@@ -507,6 +508,7 @@ def run(ctx):
     # the workbooks shipped with the repository (date, text, lookup, ... functions; CSE arrays; several sheets)
     realbooks.run_cases(ctx, realbooks.c05_case, realbooks.acyclic_books(), 6 if ctx.quick else 60, fraction=0.3)
     i = 0
+    late = []
     while not ctx.out_of_time():
         i += 1
         if i % 4:
@@ -519,6 +521,31 @@ def run(ctx):
             spec, meta = wbgen.dag(rng, n_cells=rng.randint(5, 9), arrays=(i % 8 == 0) or None,
                                    two_sheets=(i % 8 == 0) or None)
         one_book(ctx, spec, meta, rng, config='xlsx-stale' if i % 5 == 0 else 'mem')
+        if i % 7 == 0:
+            late.append((spec, meta))
+    pristine_reference(ctx, late[-5:])
+
+
+def pristine_reference(ctx, books):
+    """the values this long-lived process computes for a workbook against those of a process that never saw
+    another workbook: state that outlives a workbook (a cache on a class, a module level dict) shows here"""
+    if not books:
+        return
+    mine = [wb.fresh_values(spec) for spec, _ in books]
+    theirs = wb.pristine_outcomes([{'spec': spec} for spec, _ in books], ctx.tmpdir)
+    for (spec, meta), got, want in zip(books, mine, theirs):
+        if want is None:
+            raise RuntimeError('pristine child gave no result')
+        ctx.count('pristine_process_workbooks')
+        for a, o in got.items():
+            ctx.count('pristine_process_compares')
+            if not wb.same_as_pristine(o, want[a]):
+                form = (meta['formulas'].get(a) or {}).get('form', '?')
+                ctx.violation(f'value-depends-on-earlier-workbooks-of-the-process/{form}',
+                              f'evaluate({a!r}) on a fresh model gives {o!r} in a process that has compiled other '
+                              f'workbooks before and {want[a]!r} in a process that has not',
+                              {'spec': spec, 'meta': meta, 'kind': 'pristine', 'path': a})
+                break
 
 
 def replay(ctx, case):
